@@ -1,5 +1,6 @@
 import Pyc.Driver.Util
 import Pyc.Model.Codec
+import Pyc.Proofs.Typed
 import Pyc.Generated.Schema
 
 namespace Pyc.Driver
@@ -61,6 +62,9 @@ def handleCodec (op : String) (j : Json) : R Json := do
     match decodeAll b with
     | none => pure (Json.mkObj [("err", "cbor")])
     | some i => pure (cdRes (fromPrim Pyc.Generated.repoSchema 200 (.cls (← getStr j "cls")) i))
+  | "codec.typed" =>
+    -- is the value within the scope of the generic round-trip theorem (`HasType`, by the sound check `typedB`)?
+    pure (Json.bool (typedB Pyc.Generated.repoSchema 200 (.cls (← getStr j "cls")) (← cdVal (← j.getObjVal? "v"))))
   | "cbor.reenc" =>
     let b ← getBytes j "hex"
     match decodeAll b with
